@@ -48,7 +48,10 @@ def _rates(draw, big):
     dt = spec["time"][2]
     tc = max(b["cortime"] for b in spec["bath"])
     spec["time"] = [0.0, int(min(1000 if not big else 2000, max(200, 10 * tc / dt))), dt]
-    return {"kind": "rates", "spec": spec}
+    # optionally the tensor is built with a cut-off time of 7-9 correlation times (inside the axis): the half-Fourier
+    # integral has converged there, so the golden-rule value is still the expectation
+    cut = draw(st.sampled_from([None, None, 7, 8, 9]))
+    return {"kind": "rates", "spec": spec, "cutoff_in_cortimes": cut}
 
 
 @st.composite
@@ -56,7 +59,8 @@ def _bath(draw):
     return {"kind": "bath", "reorg": draw(st.integers(5, 150)), "cortime": draw(st.integers(20, 200)),
             "T": draw(st.integers(50, 400)), "nt": draw(st.integers(100, 600)), "dt": draw(st.sampled_from([0.5, 1.0, 2.0])),
             "ftype": draw(st.sampled_from(["OverdampedBrownian", "UnderdampedBrownian"])),
-            "freq": draw(st.integers(100, 800)), "gamma": draw(st.integers(5, 60))}
+            "freq": draw(st.integers(100, 800)), "gamma": draw(st.integers(5, 60)),
+            "ft_units": draw(st.sampled_from([None, "1/cm", "eV", "THz"]))}
 
 
 def strategy(tier):
@@ -86,6 +90,13 @@ def _check_rates(case, ctx):
     ctx.mark_nontrivial(resolved)
     t0, nt, dtt = spec["time"]
     ta = qr.TimeAxis(t0, int(nt), dtt)
+    cutoff = None
+    if case.get("cutoff_in_cortimes"):
+        # (a point of the time axis, so that "the nearest index" is not a matter of rounding half-way values)
+        cutoff = dtt * math.floor(case["cutoff_in_cortimes"] * max(b["cortime"] for b in spec["bath"]) / dtt)
+        if cutoff > (int(nt) - 1) * dtt:
+            cutoff = None
+    ctx.label("tensor-cutoff" if cutoff is not None else "tensor-no-cutoff")
 
     def golden(a, b):
         """downhill rate a <- b (E_a < E_b) and the allowed relative deviation of the numerical half-Fourier transform.
@@ -140,6 +151,37 @@ def _check_rates(case, ctx):
         RT, ham = agg.get_RelaxationTensor(ta, relaxation_theory="standard_Redfield")
         with qr.eigenbasis_of(ham):
             return numpy.array(RT.data)
+
+    def tensor_direct(sp, **kw):
+        # the library's own construction pattern (get_RelaxationTensor does not pass a cut-off time on)
+        from quantarhei.qm import RedfieldRelaxationTensor
+        agg = gens.make_aggregate(qr, sp)
+        ham, sbi = agg.get_Hamiltonian(), agg.get_SystemBathInteraction()
+        ham.protect_basis()
+        try:
+            with qr.eigenbasis_of(ham):
+                RT = RedfieldRelaxationTensor(ham, sbi, **kw)
+        finally:
+            ham.unprotect_basis()
+        with qr.eigenbasis_of(ham):
+            return numpy.array(RT.data)
+    if resolved and cutoff is not None:
+        # a cut-off time T means "integrate the bath correlation functions up to T": the same tensor must come out
+        # without a cut-off on a time axis that ends at T (same step)
+        icut = int(round(cutoff / dtt))
+        ok1, Rc = guarded(ctx, "redfield-tensor", lambda: tensor_direct(spec, cutoff_time=cutoff), "cutoff")
+        ok2, Rs = guarded(ctx, "redfield-tensor", lambda: tensor_direct(dict(spec, time=[t0, icut, dtt])), "short-axis")
+        if ok1 and ok2:
+            pc = numpy.array([[Rc[a, a, b, b] for b in range(n + 1)] for a in range(n + 1)])
+            ps = numpy.array([[Rs[a, a, b, b] for b in range(n + 1)] for a in range(n + 1)])
+            ctx.close("redfield-tensor/cutoff-time-equals-shorter-axis", pc, ps, rtol=1e-6,
+                      scale=max(1e-300, float(numpy.max(numpy.abs(ps)))), dt=dtt, cutoff=cutoff)
+            for a in range(n):
+                for b in range(a + 1, n):
+                    g, allowed = golden(a, b)
+                    if g > 1e-7 and allowed <= 0.25:
+                        ctx.bound("golden-rule/tensor-with-cutoff", abs(float(numpy.real(Rc[a + 1, a + 1, b + 1, b + 1])) / g - 1.0),
+                                  allowed + 0.03, T=T, w_cm=round((ev[b] - ev[a]) / orc.CM2INT, 1), N=n, dt=dtt)
     if resolved:
         ok, R = guarded(ctx, "redfield-tensor", tensor)
         if ok:
@@ -197,7 +239,12 @@ def _check_bath(case, ctx):
     def build():
         with qr.energy_units("1/cm"):
             sd = qr.SpectralDensity(ta, params)
-        ft = sd.get_FTCorrelationFunction(temperature=float(T))
+        # the derived function may be requested while any energy units are current
+        if case.get("ft_units"):
+            with qr.energy_units(case["ft_units"]):
+                ft = sd.get_FTCorrelationFunction(temperature=float(T))
+        else:
+            ft = sd.get_FTCorrelationFunction(temperature=float(T))
         with qr.energy_units("int"):
             return numpy.array(sd.axis.data), numpy.array(sd.data), numpy.array(ft.axis.data), numpy.array(ft.data)
     ok, r = guarded(ctx, "bath-functions", build, case["ftype"])
